@@ -734,6 +734,22 @@ def _call(node, env):
                     env.region('mysql-trim-removes-a-substring-not-a-character-set', z3.And(z3.Not(recv.n), z3.Not(c.n), z3.Length(c.t) >= 2))
                 return SV('str', sqlsem.py_trim(k, recv.t, c.t), z3.Or(recv.n, c.n))
             raise Unmodelled('string method %s' % m)
+        if isinstance(recv, EntityName) and m in ('select', 'exists', 'count') and len(node.args) <= 1:
+            # Entity.select(lambda x: ...) / Entity.exists(lambda x: ...) nested in a query: the objects of that class (or a subclass)
+            items = rows_of(env, recv.ent)
+            if node.args:
+                lam = node.args[0]
+                if not isinstance(lam, ast.Lambda) or len(lam.args.args) != 1: raise Unmodelled('entity method argument')
+                var = lam.args.args[0].arg
+                kept = []
+                for g, r in items:
+                    e2 = env.child(**{var: ERef(recv.ent, row=r)})
+                    with e2.under(g): kept.append((z3.And(g, is_true(truth(e2, ev(lam.body, e2)))), r))
+                items = kept
+            coll = Coll(recv.ent, items)
+            if m == 'select': return coll
+            if m == 'exists': return cond(z3.Or([g for g, _ in items]) if items else FALSE)
+            return aggregate(env, 'count', coll)
         if isinstance(recv, (Coll, Bag)):
             if m in ('count',) and not node.args: return aggregate(env, 'count', recv)
             if m == 'is_empty' and not node.args:
